@@ -3,6 +3,7 @@ package main
 // C20 Uniprot streaming delivers every entry once, in order, and terminates.
 
 import (
+	"go/token"
 	"fmt"
 	"go/types"
 	"reflect"
@@ -196,6 +197,33 @@ func ruleC20(c *Ctx) {
 						stE, whyE = broken, "the error "+o.Name+" is treated like a clean end of input: a truncated stream that surfaces as that error between elements ends the parse without any error being reported"
 					}
 				}
+			}
+		}
+		// the tokenizer's error is looked at for presence only: nothing sends it, stores it, wraps it or tells
+		// the end of input from damage (an assignment meant for it went to a variable of the same name
+		// declared in the loop, say)
+		if stE == unknown && errVal.Referrers() != nil {
+			onlyNilTests := len(*errVal.Referrers()) > 0
+			for _, r := range *errVal.Referrers() {
+				if _, isDbg := r.(*ssa.DebugRef); isDbg {
+					continue
+				}
+				bo, isCmp := r.(*ssa.BinOp)
+				if !isCmp || (bo.Op != token.NEQ && bo.Op != token.EQL) {
+					onlyNilTests = false
+					break
+				}
+				other := bo.X
+				if other == errVal {
+					other = bo.Y
+				}
+				if k, isC := other.(*ssa.Const); !isC || !k.IsNil() {
+					onlyNilTests = false
+					break
+				}
+			}
+			if onlyNilTests {
+				stE, whyE = broken, "the error returned by Token() is only compared with nil: it is never sent, kept or told apart from the end of input, so damage between entries (a truncated stream, a stray tag) ends the parse without any error being reported"
 			}
 		}
 		c.judge(stE, "LOOPEXIT", "only io.EOF ends the stream silently", tok.Pos(), "the only error not forwarded to the error channel is the end of input", whyE)
